@@ -5,9 +5,13 @@
 EXTENDS Sequences, Naturals, Json, IOUtils, TLC
 Rec == ndJsonDeserialize(IOEnv.TRACE)
 Reserved(chars) == Len(chars) >= 2 /\ chars[1] = "_" /\ chars[2] = "_"
+\* ... and a rejected registration leaves no trace: the name is callable from a script exactly when it was accepted, and
+\* the library functions still do their own work afterwards ({callable, lib_ok} are observed by running a script)
 Check == \A n \in 1..Len(Rec) :
-           \/ Rec[n].accepted = ~Reserved(Rec[n].chars)
-           \/ PrintT(<<"MISMATCH", ToJson([chars |-> Rec[n].chars, accepted |-> Rec[n].accepted])>>)
+           \/ /\ Rec[n].accepted = ~Reserved(Rec[n].chars)
+              /\ Rec[n].callable = Rec[n].accepted
+              /\ Rec[n].lib_ok
+           \/ PrintT(<<"MISMATCH", ToJson([chars |-> Rec[n].chars, accepted |-> Rec[n].accepted, callable |-> Rec[n].callable, lib_ok |-> Rec[n].lib_ok])>>)
 VARIABLE dummy
 Spec == dummy = 0 /\ [][UNCHANGED dummy]_dummy
 Inv == Check /\ PrintT(<<"TRACE-DONE", Len(Rec)>>)
